@@ -502,7 +502,7 @@ class Gen:
             return None
         q = self._pick(qs2, "q")
         pr = self._pick([0.125, 0.25, 0.5, 0.0625, 0.75, 1.0, 0.0], "ch-p")
-        kind = self.t.weighted([3, 2, 2, 2, 2, 2, 2, 2, 2, 1, 2], "ch-kind")
+        kind = self.t.weighted([3, 2, 2, 2, 2, 2, 2, 2, 2, 1, 2, 2, 1], "ch-kind")
         bits = 2.0
         op = None
         if kind == 0:
@@ -550,6 +550,33 @@ class Gen:
             bits = 1
             if key:
                 self.features.add("keyed-channel")
+        elif kind == 11:
+            # a mixture applied only when other qudits hold given values (controlled_by accepts mixtures)
+            others = [x for x in self.qudits if x != q]
+            if not others:
+                return None
+            nctl = 1 + (self.t.draw(2, "n-controls") if len(others) >= 2 else 0)
+            ctls = self._pick_distinct(others, nctl, "ctl-q")
+            vals = [self.t.draw(c.dimension, "ctl-val") for c in ctls]
+            sub = self._pick([cirq.bit_flip(min(pr, 1.0)), cirq.phase_flip(min(pr, 1.0)), cirq.depolarize(min(pr, 0.75)),
+                              cirq.X.with_probability(pr if pr > 0 else 0.5)], "ctl-ch")
+            op = sub.on(q).controlled_by(*ctls, control_values=vals)
+            bits = 2.0 if "depolarize" in repr(sub) else 1.0
+            self.features.add("controlled-mixture")
+        elif kind == 12:
+            # Pauli errors on a pair, given as a dictionary of Pauli strings
+            if len(qs2) < 2:
+                return None
+            a, b = self._pick_distinct(qs2, 2, "q2")
+            names = [self._pick(["XX", "ZI", "IY", "YZ", "XI", "ZZ"], "pauli-str") for _ in range(2)]
+            if names[0] == names[1]:
+                names = names[:1]
+            w = [self._pick([0.0625, 0.125, 0.25], "ad-p") for _ in names]
+            probs = dict(zip(names, w))
+            probs["II"] = 1.0 - sum(probs.values())
+            op = cirq.asymmetric_depolarize(error_probabilities=probs).on(a, b)
+            bits = math.log2(len(probs))
+            self.features.add("pauli-string-errors")
         elif kind == 10:
             us = [self._pick([cirq.H, cirq.Z, cirq.S, cirq.T, cirq.X, cirq.Y ** 0.5], "ng-u")
                   for _ in range(1 + self.t.draw(2, "ng-n"))]
